@@ -239,3 +239,70 @@ func keysOf(m map[string]ssa.Instruction) []string {
 }
 
 func sortStrings(s []string) { sort.Strings(s) }
+
+// ruleLinkOwnStore (C05/C06.LINKSTORE): the two sides of a link find an entity's bucket the same way
+// — through the symbol's own store. No method of the link collection types, nor a same-package helper
+// it calls, asks for the parent store: a local side written below the parent's bucket is not where
+// the other side's RemoveLink looks when the related entity is deleted.
+func ruleLinkOwnStore(c *Ctx, rule string) {
+	p := c.P
+	owners := map[*types.Named]bool{}
+	for _, n := range []string{"linkCollectionImpl", "rcLinkCollectionImpl", "LinkedSetSymbol", "RefCountedLinkedSetSymbol"} {
+		if t := p.Named("boltz", n); t != nil {
+			owners[t] = true
+		}
+	}
+	if len(owners) < 4 {
+		c.Undecided(rule, "boltz link collection types", "-", fmt.Sprintf("only %d of the 4 link collection types found", len(owners)))
+		return
+	}
+	isStoreFn := func(fn *ssa.Function) bool {
+		if fn.Signature.Recv() == nil {
+			return false
+		}
+		t := namedOf(fn.Signature.Recv().Type())
+		return t != nil && t.Obj().Name() == "BaseStore"
+	}
+	n, bad := 0, 0
+	for _, fn := range c.prodFuncs("boltz") {
+		if fn.Signature.Recv() == nil || !owners[namedOf(fn.Signature.Recv().Type())] {
+			continue
+		}
+		n++
+		c.Analysed(FnName(fn))
+		seen := map[*ssa.Function]bool{}
+		found, foundPos := "", "-"
+		var walk func(f *ssa.Function, depth int, via string)
+		walk = func(f *ssa.Function, depth int, via string) {
+			if seen[f] || depth > 4 || found != "" {
+				return
+			}
+			seen[f] = true
+			for _, g := range allFuncsWithAnon(f) {
+				for _, call := range callsIn(g) {
+					cc := call.Common()
+					cal, _ := calleeOf(cc)
+					if cal != nil && (cal.Name() == "GetParentStore" || cal.Name() == "getEntityBucketForLoad" || cal.Name() == "GetParentContext") {
+						if found == "" {
+							found, foundPos = cal.Name()+via, p.Pos(call.Pos())
+						}
+						continue
+					}
+					if sc := cc.StaticCallee(); sc != nil && sc.Pkg == fn.Pkg && len(sc.Blocks) > 0 && !isStoreFn(sc) {
+						walk(sc, depth+1, via+" (via "+FnName(sc)+")")
+					}
+				}
+			}
+		}
+		walk(fn, 0, "")
+		pos := p.Pos(fn.Pos())
+		if found != "" {
+			bad++
+			pos = foundPos
+		}
+		c.Check(found == "", rule, FnName(fn), pos, "finds entities through the symbol's own store only", "a link collection method reaches for the parent store ("+found+"): the two sides of a link find an entity through the symbol's own store — a link list written below the parent's bucket for an entity without child data is not where the other side's RemoveLink looks, so deleting the related entity leaves its id behind in that list")
+	}
+	_ = bad
+	c.CallSites(n)
+	c.Floor(rule, 30)
+}
